@@ -472,7 +472,7 @@ func TestC08(t *testing.T) {
 	// the one-element unit of each construct against refjq (text programs are
 	// parsed by nobody here: the unit is rebuilt as an AST in genC08's style, so
 	// only the AST-based random part uses refjq)
-	check(rec, "calls-random", scale(8000, 150000), func(rt *rapid.T) {
+	check(rec, "calls-random", scale(8000, 4000000), func(rt *rapid.T) {
 		c, labels := genC08(rt)
 		var ls []string
 		for l := range labels {
@@ -485,7 +485,7 @@ func TestC08(t *testing.T) {
 
 	// random histories with random N (thorough adds more)
 	flagSet("rapid.shrinktime", "5s")
-	check(rec, "history-random", scale(60, 600), func(rt *rapid.T) {
+	check(rec, "history-random", scale(60, 1500), func(rt *rapid.T) {
 		h := &C08Hist{
 			Construct: rapid.IntRange(0, len(c08Constructs)-1).Draw(rt, "construct"),
 			N:         rapid.SampledFrom([]int{3, 50, 1000, 4094, 4096, 4098, 6000, 9000, 12000}).Draw(rt, "n"),
